@@ -134,7 +134,7 @@ def conc_case(args):
         return o
     programs = {c: [op() for _ in range(rng.randint(1, 2))] for c in range(n_clients)}
     shared = rng.random() < 0.4
-    bound, n_rand = (14, 4) if tier == 'quick' else (40, 30)
+    bound, n_rand = (14, 4) if tier == 'quick' else (24, 12)
     scheds = []
     if n_clients == 2:
         for a, b in ((0, 1), (1, 0)):
@@ -191,7 +191,7 @@ def run(tier, seed, rng, known, replay):
     dist, distinct = base.op_distribution(hists, r['impl_out'])
     # exactly-once under concurrent producers / consumers
     from concurrent.futures import ProcessPoolExecutor
-    n_cases = 32 if tier == 'quick' else 400
+    n_cases = 32 if tier == 'quick' else 128
     seeds = [rng.getrandbits(48) for _ in range(n_cases)]
     with ProcessPoolExecutor(max_workers=16) as ex:
         cases = list(ex.map(conc_case, [(s, tier) for s in seeds], chunksize=1))
